@@ -22,6 +22,12 @@ def run(ctx):
     ctx.configs.append(nolib["desc"] + " ASCON_NO_STL")
     nostl = build.build_prog("c20_helpers", ["harness/c20_helpers.cpp", "ref/ref.c"], nolib, opt="-O1", extra=["-DASCON_NO_STL"], cfg_dep=True)
     jobs.append((nostl, [], "helpers-nostl"))
+    # the Arduino configuration of the helpers (String overloads), on a stand-in WString.h
+    import os
+    ardflags = ["-DARDUINO", "-I" + os.path.join(common.VERIF, "harness", "stubs", "arduino")]
+    ardlib = build.build_lib("asm", san="asan", opt="-O1", no_stl=True, extra=["-fsanitize-recover=address"] + ardflags)
+    ctx.configs.append(ardlib["desc"] + " ARDUINO (stand-in String)")
+    jobs.append((build.build_prog("c20_helpers", ["harness/c20_helpers.cpp", "ref/ref.c"], ardlib, opt="-O1", extra=ardflags, cfg_dep=True), [], "helpers-arduino"))
     ba = build.build_prog("c20_ba", ["harness/c20_ba.cpp"], nolib, opt="-O1", extra=["-DASCON_NO_STL", "-fsanitize-recover=address"], cfg_dep=True)
     env = {"ASAN_OPTIONS": "halt_on_error=0:detect_leaks=0:print_summary=0"}
     jobs.append((ba, [2, 6 if t else 5], "byte_array", env))
